@@ -51,12 +51,12 @@ def matrix(main_re, std_excl_re, tier):
     ref = "od=0"
     out = [("od=1", "eq"),
            ("od=0,pf=%s" % main_re, "eq"), ("od=1,pf=%s" % main_re, "eq"),
-           ("od=0,pf=%s" % std_excl_re, "eq"), ("od=1,pf=%s" % std_excl_re, "eq"),
+           ("od=0,pf=%s" % std_excl_re, "eq"),
            ("od=0,rep=1,ll=4", "eq"), ("od=1,rep=1,ll=3", "eq"),
-           ("od=0,ma=1", ("ma", 1)), ("od=0,ma=2", ("ma", 2)), ("od=1,ma=2", ("ma", 2)), ("od=0,ma=5", ("ma", 5))]
+           ("od=0,ma=1", ("ma", 1)), ("od=1,ma=2", ("ma", 2)), ("od=0,ma=5", ("ma", 5))]
     if tier != "quick":
-        out += [("od=1,ma=1", ("ma", 1)), ("od=1,ma=5", ("ma", 5)), ("od=0,rw=0", "eqrw"), ("od=1,rw=0", "eqrw"),
-                ("od=1,pf=%s,rep=1" % main_re, "eq"), ("od=0,ll=5", "eq")]
+        out += [("od=1,pf=%s" % std_excl_re, "eq"), ("od=0,ma=2", ("ma", 2)), ("od=1,ma=1", ("ma", 1)), ("od=1,ma=5", ("ma", 5)),
+                ("od=0,rw=0", "eqrw"), ("od=1,rw=0", "eqrw"), ("od=1,pf=%s,rep=1" % main_re, "eq"), ("od=0,ll=5", "eq")]
     return ref, out
 
 
@@ -97,7 +97,7 @@ def run(chk):
     progs.append(("regress", d, C.mugo(d, spec=json.load(open(REGRESS))), "^p1$", "^p1", None))
     for k in range(1 if tier == "quick" else 6):
         d = os.path.join(work, "gen%d" % k)
-        progs.append(("gen%d" % k, d, C.mugo(d, seed=chk.seed * 1000 + 500 + k, n=(35 if tier == "quick" else 50)), "^p1$", "^p1", None))
+        progs.append(("gen%d" % k, d, C.mugo(d, seed=chk.seed * 1000 + 500 + k, n=(30 if tier == "quick" else 50)), "^p1$", "^p1", None))
     for name in (TESTDATA_QUICK if tier == "quick" else TESTDATA_THOROUGH):
         d = stage_testdata(work, name)
         if d:
@@ -244,8 +244,11 @@ def run(chk):
             if m:
                 lines.add(int(m.group(1)))
         scs = [sc for sc in man["scenarios"] if sc.get("sink_line") in lines]
-        what = "+".join(sorted(set(k for sc in scs for k in C.atom_keys(sc))))[:120] or "unattributed"
-        key = "backtrace-ondemand:%s" % what
+        # stable key: direction + kinds of the ORIGIN nodes of the differing traces (first component "pos#NodeKind")
+        kinds_e = sorted(set(t[0].split("#")[-1] for t in only_e))
+        kinds_l = sorted(set(t[0].split("#")[-1] for t in only_l))
+        key = "backtrace-ondemand:" + "/".join((["only-eager:" + "+".join(kinds_e)] if only_e else []) +
+                                               (["only-ondemand:" + "+".join(kinds_l)] if only_l else []))
         rd = chk.replay_dir(key)
         pd = C.copy_prog(d, rd)
         with open(os.path.join(rd, "replay.txt"), "w") as f:
